@@ -49,6 +49,9 @@ pub enum Op {
     /// a brand-new builder with each setter called once, built once
     BuildFresh { input: u8, mode: Option<u8>, ecl: Option<u8>, version: Option<u8>, mask: Option<u8>, out: u8 },
     CloneQr { from: u8, to: u8 },
+    /// `QRCode::default(17 + 4 * version)`: a blank code that no build produced (the first thing a
+    /// process renders may well be one)
+    BlankQr { to: u8, version: u8 },
     /// a copy of a QR code with one module changed by hand (`QRCode::data` is public): the value
     /// bit (xor 1) or a module-type bit (xor 2, 4, 8) of module `pos % size²`
     TweakQr { from: u8, to: u8, pos: u32, xor: u8 },
@@ -84,6 +87,7 @@ impl Op {
             Op::BuildFresh { .. } => "BuildFresh",
             Op::CloneQr { .. } => "CloneQr",
             Op::TweakQr { .. } => "TweakQr",
+            Op::BlankQr { .. } => "BlankQr",
             Op::NewSvg { .. } => "NewSvg",
             Op::SvgSet { .. } => "SvgSet",
             Op::SvgRender { .. } => "SvgRender",
@@ -237,6 +241,9 @@ impl OracleStats {
 #[derive(Clone, Debug, Serialize, Deserialize)]
 pub struct OneSpec {
     pub cfg: QrCfg,
+    /// render `QRCode::default(size)` instead of building `cfg`
+    #[serde(default, skip_serializing_if = "Option::is_none")]
+    pub blank: Option<usize>,
     /// hand edits applied to the built QR code before rendering: (module index, xor)
     #[serde(default, skip_serializing_if = "Vec::is_empty")]
     pub tweaks: Vec<(u32, u8)>,
@@ -385,6 +392,8 @@ impl Oracle {
 
 struct LocalQr {
     qr: Box<QRCode>,
+    /// `Some(size)`: made by `QRCode::default(size)`, not by a build
+    blank: Option<usize>,
     /// hand edits this QR code carries on top of what its configuration builds
     tweaks: Vec<(u32, u8)>,
     digest: String,
@@ -832,8 +841,9 @@ fn task_body(sim: &Arc<Sim>, oracle: &Arc<Mutex<Oracle>>, shared: &Arc<Shared>, 
 fn put_qr(local: &mut Local, slot: usize, new: LocalQr) {
     match local.qrs[slot].as_mut() {
         Some(old) => {
-            let LocalQr { qr, tweaks, digest, cfg } = new;
+            let LocalQr { qr, blank, tweaks, digest, cfg } = new;
             *old.qr = *qr;
+            old.blank = blank;
             old.tweaks = tweaks;
             old.digest = digest;
             old.cfg = cfg;
@@ -844,6 +854,7 @@ fn put_qr(local: &mut Local, slot: usize, new: LocalQr) {
 
 struct QrView<'a> {
     qr: &'a QRCode,
+    blank: Option<usize>,
     tweaks: &'a [(u32, u8)],
     digest: &'a str,
     origin: String,
@@ -854,6 +865,7 @@ fn resolve_qr<'a>(r: QrRef, local: &'a Local, shared: &'a Shared) -> Option<QrVi
     match r {
         QrRef::Local(s) => local.qrs[(s as usize) % N_QR_SLOTS].as_ref().map(|q| QrView {
             qr: &q.qr,
+            blank: q.blank,
             tweaks: &q.tweaks,
             digest: q.digest.as_str(),
             origin: format!("local {}", s),
@@ -865,6 +877,7 @@ fn resolve_qr<'a>(r: QrRef, local: &'a Local, shared: &'a Shared) -> Option<QrVi
             }
             shared.qrs[(s as usize) % shared.qrs.len()].as_ref().map(|(q, d, c)| QrView {
                 qr: q,
+                blank: None,
                 tweaks: &[],
                 digest: d.as_str(),
                 origin: format!("shared {}", s),
@@ -1050,7 +1063,7 @@ fn exec_op(
             let mut o = oracle.lock().unwrap();
             o.stats.probe("burst_builds");
             if let Some(f) = &first {
-                o.observe_spec(&key, f, id, op_index, kind, false, Some(OneSpec { cfg: cfg.clone(), tweaks: vec![], render: None }));
+                o.observe_spec(&key, f, id, op_index, kind, false, Some(OneSpec { cfg: cfg.clone(), blank: None, tweaks: vec![], render: None }));
             }
             if let (Some(f), Some((i, got))) = (&first, bad) {
                 o.violate(
@@ -1074,7 +1087,7 @@ fn exec_op(
                 return false;
             };
             let key = format!("R|svg|{}|{}", m.key(), v.digest);
-            let spec = Some(OneSpec { cfg: v.cfg.clone(), tweaks: v.tweaks.to_vec(), render: Some(("svg".into(), m.canonical_setters())) });
+            let spec = Some(OneSpec { cfg: v.cfg.clone(), blank: v.blank, tweaks: v.tweaks.to_vec(), render: Some(("svg".into(), m.canonical_setters())) });
             CB_PANIC_AT.with(|c| c.set(None));
             sched::op_begin(sim, id, crash);
             let mut first: Option<Outcome> = None;
@@ -1119,7 +1132,7 @@ fn exec_op(
             let f = (*from as usize) % N_QR_SLOTS;
             let t = (*to as usize) % N_QR_SLOTS;
             if let Some(q) = local.qrs[f].as_ref() {
-                let c = LocalQr { qr: Box::new((*q.qr).clone()), tweaks: q.tweaks.clone(), digest: q.digest.clone(), cfg: q.cfg.clone() };
+                let c = LocalQr { qr: Box::new((*q.qr).clone()), blank: q.blank, tweaks: q.tweaks.clone(), digest: q.digest.clone(), cfg: q.cfg.clone() };
                 let d = hex128(qr_digest(&c.qr));
                 if d != c.digest {
                     oracle.lock().unwrap().violate(
@@ -1134,6 +1147,14 @@ fn exec_op(
             }
             false
         }
+        Op::BlankQr { to, version } => {
+            let size = 17 + 4 * (*version).clamp(1, 40) as usize;
+            let qr = Box::new(QRCode::default(size));
+            let digest = hex128(qr_digest(&qr));
+            oracle.lock().unwrap().stats.probe("blank_qr_made");
+            put_qr(local, (*to as usize) % N_QR_SLOTS, LocalQr { qr, blank: Some(size), tweaks: vec![], digest, cfg: QrCfg::new(Vec::new()) });
+            false
+        }
         Op::TweakQr { from, to, pos, xor } => {
             let f = (*from as usize) % N_QR_SLOTS;
             let t = (*to as usize) % N_QR_SLOTS;
@@ -1146,7 +1167,7 @@ fn exec_op(
                 tweaks.push((idx as u32, *xor & 0x0f));
                 let digest = hex128(qr_digest(&qr));
                 oracle.lock().unwrap().stats.probe("qr_tweaked_by_hand");
-                let c = LocalQr { qr, tweaks, digest, cfg: q.cfg.clone() };
+                let c = LocalQr { qr, blank: q.blank, tweaks, digest, cfg: q.cfg.clone() };
                 put_qr(local, t, c);
             }
             false
@@ -1182,7 +1203,7 @@ fn exec_op(
             };
             let key = format!("R|svg|{}|{}", m.key(), v.digest);
             // a panicking callback is a harness-side fault, not part of the model: no pristine spec then
-            let spec = if m.has_panicky_shape() { None } else { Some(OneSpec { cfg: v.cfg.clone(), tweaks: v.tweaks.to_vec(), render: Some(("svg".into(), m.canonical_setters())) }) };
+            let spec = if m.has_panicky_shape() { None } else { Some(OneSpec { cfg: v.cfg.clone(), blank: v.blank, tweaks: v.tweaks.to_vec(), render: Some(("svg".into(), m.canonical_setters())) }) };
             CB_CALLS.with(|c| c.set(0));
             CB_PANIC_AT.with(|c| c.set(cb_panic_at));
             sched::op_begin(sim, id, crash);
@@ -1214,7 +1235,7 @@ fn exec_op(
                 oracle.lock().unwrap().stats.probe("file_backed_image_render");
             }
             let key = format!("R|{}|{}|{}", rk, m.key(), v.digest);
-            let spec = Some(OneSpec { cfg: v.cfg.clone(), tweaks: v.tweaks.to_vec(), render: Some((rk.into(), m.canonical_setters())) });
+            let spec = Some(OneSpec { cfg: v.cfg.clone(), blank: v.blank, tweaks: v.tweaks.to_vec(), render: Some((rk.into(), m.canonical_setters())) });
             sched::op_begin(sim, id, crash);
             let outcome = render_img_outcome(b, v.qr, *pixmap);
             sched::op_end(sim, id);
@@ -1226,7 +1247,7 @@ fn exec_op(
             };
             let rk = if *print { "print" } else { "term" };
             let key = format!("R|{}|{}", rk, v.digest);
-            let spec = Some(OneSpec { cfg: v.cfg.clone(), tweaks: v.tweaks.to_vec(), render: Some((rk.into(), vec![])) });
+            let spec = Some(OneSpec { cfg: v.cfg.clone(), blank: v.blank, tweaks: v.tweaks.to_vec(), render: Some((rk.into(), vec![])) });
             sched::op_begin(sim, id, crash);
             let outcome = render_term_outcome(v.qr, *print);
             sched::op_end(sim, id);
@@ -1282,11 +1303,16 @@ pub fn render_term_outcome(q: &QRCode, print: bool) -> Outcome {
 /// What `fqsim c14-one` does in a fresh process: exactly one build from a fresh builder
 /// (setters in canonical order) and, for a render state, exactly one render of the result.
 pub fn evaluate_one(spec: &OneSpec) -> Outcome {
-    let b = spec.cfg.fresh_builder();
-    let r = catch_unwind(AssertUnwindSafe(|| b.build()));
-    let (outcome, qr) = match r {
-        Ok(res) => (build_outcome(&res), res.ok()),
-        Err(p) => (classify_panic(p), None),
+    let (outcome, qr) = if let Some(size) = spec.blank {
+        let q = QRCode::default(size);
+        (Outcome::Ok(hex128(qr_digest(&q))), Some(q))
+    } else {
+        let b = spec.cfg.fresh_builder();
+        let r = catch_unwind(AssertUnwindSafe(|| b.build()));
+        match r {
+            Ok(res) => (build_outcome(&res), res.ok()),
+            Err(p) => (classify_panic(p), None),
+        }
     };
     let Some((kind, setters)) = &spec.render else { return outcome };
     let Some(mut qr) = qr else { return Outcome::Skipped };
@@ -1330,7 +1356,7 @@ fn finish_build(
     let died = outcome.is_died();
     {
         let mut o = oracle.lock().unwrap();
-        o.observe_spec(key, &outcome, id, op_index, kind, false, Some(OneSpec { cfg: cfg.clone(), tweaks: vec![], render: None }));
+        o.observe_spec(key, &outcome, id, op_index, kind, false, Some(OneSpec { cfg: cfg.clone(), blank: None, tweaks: vec![], render: None }));
         match &outcome {
             Outcome::ErrEncodedData => o.stats.probe("err_encoded_data"),
             Outcome::ErrSpecifiedVersion => o.stats.probe("err_specified_version"),
@@ -1344,7 +1370,7 @@ fn finish_build(
         }
     }
     if let (Some(q), Outcome::Ok(d)) = (qr, &outcome) {
-        put_qr(local, (out as usize) % N_QR_SLOTS, LocalQr { qr: Box::new(q), tweaks: vec![], digest: d.clone(), cfg: cfg.clone() });
+        put_qr(local, (out as usize) % N_QR_SLOTS, LocalQr { qr: Box::new(q), blank: None, tweaks: vec![], digest: d.clone(), cfg: cfg.clone() });
     }
     died
 }
